@@ -46,13 +46,18 @@ static const char *const handover_fns[] = { "upipe_xfer_mgr_detach", "upipe_qsrc
 
 /* Compiled twice: -DQUEUE_PROP=6 (default) judges delivery, order, flow definitions, threads and stalls (C06);
  * -DQUEUE_PROP=1 runs the same histories for C01 and judges only the end-of-case audit (everything destroyed exactly
- * once, nothing left allocated); sanitizer reports count in both. */
+ * once, nothing left allocated); -DQUEUE_PROP=5 judges delivery only, for C05; sanitizer reports count in all. */
 #ifndef QUEUE_PROP
 #define QUEUE_PROP 6
 #endif
 #if QUEUE_PROP == 1
 #define PID "C01"
 #define KEY_ACTIVE(key) (!strncmp(key, "audit/", 6))
+#elif QUEUE_PROP == 5
+/* C05 (the queue sink is one of its anchors): only what C05 states -- nothing lost, duplicated, reordered or altered; held
+ * buffers come out first and in arrival order; a full queue holds instead of dropping */
+#define PID "C05"
+#define KEY_ACTIVE(key) (!strncmp(key, "delivery/", 9) || !strncmp(key, "stall/", 6))
 #else
 #define PID "C06"
 #define KEY_ACTIVE(key) (strncmp(key, "audit/", 6) != 0)
